@@ -244,7 +244,13 @@ func (c *ServerChannel) EstablishSession(
 			negEncryptOpts = append(negEncryptOpts, v.(SessionEncryption))
 		}
 
-		if len(negCompOpts) > 1 || len(negEncryptOpts) > 1 {
+		// The negotiation can be skipped only when there is nothing to choose and
+		// the single available option is the one already in force on the transport
+		needNegotiation := len(negCompOpts) > 1 || len(negEncryptOpts) > 1 ||
+			(len(negCompOpts) == 1 && negCompOpts[0] != c.transport.Compression()) ||
+			(len(negEncryptOpts) == 1 && negEncryptOpts[0] != c.transport.Encryption())
+
+		if needNegotiation {
 			// Negotiate the session options
 			if err = c.negotiateSession(ctx, negCompOpts, negEncryptOpts); err != nil {
 				return err
